@@ -231,8 +231,10 @@ def fvals(rng, n, kind):
 
 def doubling_cases(rng, tier, kind):
     cases = []
+    # float: k >= 100 and total weight <= 2^33 only: with k = 50 a single centroid already passes 2^32 at a total of 2^33 and wraps
+    # (known finding float_centroid_weight_wrap: case wrap_f0 exhibits it; thorough run of 2026-10-02: k = 50, 513 * 2^24 values)
     confs = [(100, 1000, 'seq'), (200, 1000, 'dyadic'), (100, 700, 'few')] if tier == 'quick' else \
-            [(k, n, vk) for k in (50, 100, 200) for n in (1000, 513) for vk in ('seq', 'dyadic', 'rev', 'few')]
+            [(k, n, vk) for k in ((50, 100, 200) if kind == 'double' else (100, 200)) for n in (1000, 513) for vk in ('seq', 'dyadic', 'rev', 'few')]
     for ci, (k, n, vk) in enumerate(confs):
         vals = fvals(rng, n, vk)
         ops = [[1, 0, k], [2, 0] + [d2b(v) for v in vals]]
@@ -241,7 +243,7 @@ def doubling_cases(rng, tier, kind):
         qs = [0.0, 1.0, 0.5, 0.25, 0.75, 0.001, 0.999] + [rng.randrange(1, 64) / 64.0 for _ in range(6)]
         # double: up to about 2^34.  float: up to about 2^33 - beyond that single centroid weights pass 2^32 and wrap in their
         # uint32 (known finding float_centroid_weight_wrap, exhibited by the separate case wrap_f0)
-        nd = (24 if n >= 1000 else 25) if kind == 'double' else (23 if n >= 700 else 24)
+        nd = (24 if n >= 1000 else 25) if kind == 'double' else 23      # float: n * 2^23 is between 2^32 and 2^33 for n in 513..1000
         for d in range(1, nd + 1):
             if kind == 'float': ops.append([13, 0, 1])
             else: ops.append([12, 0, 1, rng.choice([0, 1]), rng.choice([0, 1])])
